@@ -148,7 +148,7 @@ impl LinearCodePCS {
                 assert forall|jj: int| 0 <= jj < t implies (#[trigger] indices@[jj]) == lc_index(s_i, vk, commitment, proof, point_vec_spec(*point), jj as nat) by {}
                 assert(sponge.st@ == lc_post(s_i, vk, commitment, proof, point_vec_spec(*point)));
             }
-//@after /if inner_product\(&proof\.opening\.v, &a\) != value \{/
+//@loopend 1
             proof {
                 reveal(lc_accepts_one);
                 let pv = point_vec_spec(*point);
